@@ -1,5 +1,5 @@
 HOOK_COMMITS = ["0cc1f16"]
-FIX_COMMITS = ["f6ef902", "7953ad1", "5a73e74", "74bd988", "162c4e5", "d681b06", "d1e67ed", "f178a91", "418e2ff", "882956a", "d9c0ebc", "11b0018", "91d1a50", "a9847ff", "743a30c", "d549723", "3e1966b", "816a010", "7ee2a7b", "bd3a255"]
+FIX_COMMITS = ["f6ef902", "7953ad1", "5a73e74", "74bd988", "162c4e5", "d681b06", "d1e67ed", "f178a91", "418e2ff", "882956a", "d9c0ebc", "11b0018", "91d1a50", "a9847ff", "743a30c", "d549723", "3e1966b", "816a010", "7ee2a7b", "bd3a255", "d87f4bc", "631a338", "de5bff3", "946afa5", "d41c9aa", "06c6f23", "210e7e2"]
 NOTES = "All checks: bin/check <ID> --tier quick|thorough [--replay file]; exit 0/1/2 (2 = TOOL-ERROR). See DESIGN.md."
 NOT_APPLICABLE = {}
 _EVAL_NOTE = "Program-level values of 32/64-bit types are restricted to magnitude < 2^30 (TLC integers); runs outside the modelled fragment are counted as out_of_model and not judged. The typed AST is the checker's (parser desugarings such as <= and op-assignment are already applied), so duplicated evaluation introduced by the parser is not visible in this direction. Trusted: the projection typed AST -> JSON (harness/src/proj.rs), JSON value -> Literal conversion, TLC."
@@ -81,6 +81,18 @@ CHECKS = {
         "design_ref": "DESIGN.md §5 C15",
         "note": "Movement programs are a fixed hand-written family (corpus_movement/) plus what later generators add; compiled circuits above a gate cap are not judged (TLC cost). Trusted: circuit JSON conversion, TLC.",
         "technique": "TLC invariant on the builder design model + TLC trace validation of logged built circuits against shape predicates",
+    },
+    "C05": {
+        "text": "Layout.tla (SizeOf) is the oracle for the I/O shape; every program the real checker accepts is compiled for every pub fn (and for several assignments of its external constants) and the observation - parties and bits per party, output count, validate() of the SSA and the register form, evaluation on the zero and a random valid input, decoding by the declared return type - is one event judged by Trace_Shape5.tla. Program sources: corpus, ~1900 programs over zero-sized / single-array / const-sized parameter and return types, generated fully annotated programs, and for each of them every single literal-suffix erasure (up to 16 sites), random pairs / triples and the all-erased variant. Converse clause: generated programs and type-preserving rewrites of them (block, if true, let, tuple access, array index, match, identity cast, operand swap at random expression sites) that GarbleTypes.WellTyped accepts must be accepted by the checker (Trace_Types.tla).",
+        "design_ref": "DESIGN.md \u00a75 C05",
+        "note": "Open known finding unspecified-binding (names bound to un-suffixed literals keep 32 wires); events of programs with such a binding are identified from the typed program and not judged. Programs rejected by the checker are only counted. Checker panics on erased variants are counted here and judged by C07. Trusted: harness/src/printer.rs (validated by print -> parse -> project round trip on every base program), Proj::ty, TLC.",
+        "technique": "trace validation of compile observations against the TLA+ layout oracle; TLA+ static semantics as acceptance oracle",
+    },
+    "C17": {
+        "text": "GarbleTypes.tla is an executable specification of the static semantics for fully annotated programs (all types re-derived from declarations and literal suffixes; documented rules only). Generated well-typed programs are projected to ASTs; every applicable site receives every rule-breaking edit of 33 kinds (operand / argument / return / branch / pattern types, conditions, unknown names, immutability, argument / field / variant arity, duplicated fields, tuple index and tuple pattern arity, refutable let / for patterns, literal and pattern literals out of range, direct and mutual recursion, unused private fn, pub fn without parameters), thorough adds pairs of edits; each mutant is rendered, checked by the real checker and is one event of Trace_Types.tla: a mutant that WellTyped rejects must be rejected with errors (accepted, or a checker panic, is a violation).",
+        "design_ref": "DESIGN.md \u00a75 C17",
+        "note": "Only mutants the specification itself judges ill-typed are demanded to be rejected (coverage reports them per rule); accepted mutants must round-trip (text parses back to the mutant AST) to be judged. Not modelled: const expressions beyond literals, join, generics-free language has no further rules. Trusted: printer, projection, TLC.",
+        "technique": "TLA+ static-semantics oracle over mutation-generated programs, real checker verdicts validated as a trace",
     },
     "C16": {
         "text": "TLC enumerates every small SSA and register circuit value (ill-formed ones included) and checks, at the design level, that the transcribed validation (Validate.tla) implies safe evaluation on the register/SSA step machines of CircuitSem.tla (invariant ValidImpliesSafe); every enumerated value is then replayed into the real validate()/eval() with the oracle's EvalSafe verdict; validate() must also accept every compiler and converter product of the corpus.",
